@@ -366,7 +366,7 @@ func (c *pathCtx) finish(end, detail string) {
 		if c.lastPanicSite != "" {
 			id = "PANIC:" + c.lastPanicSite
 		}
-		c.reportFailure(id, tTrue, "panic", detail)
+		c.reportFailure(id, tTrue, "panic", detail+" | stack: "+c.lastPanicStack)
 		return
 	}
 	// arithmetic obligations
